@@ -325,6 +325,7 @@ type Report struct {
 
 func newReport(prop string, p *Prog) *Report {
 	pathsProg = p
+	exitProg = p
 	helperEdgeMemo = map[string]bool{}
 	helperRetractsMemo = map[*ssa.Function]int{}
 	mergedGuardCache = map[*ssa.BasicBlock][]Guard{}
